@@ -9,10 +9,10 @@ item, reload a method-id / field-id item, query. Two name regimes:
 Oracle: dictionary model item -> current name. After every operation every class / method / field reports the
 model's name and every const-string instruction still shows its original text.
 
-Known open finding (see known_findings.json, DESIGN C17): renames are stored per *string index*, so an item or a
-string constant that shares its original pool string with an item renamed through another handle takes over that
-hook value. A mismatch of exactly that shape (classified below from the history, not from androguard state) goes to
-a '...:shared-string-hook' bucket which only the matcher recognises; every other mismatch is a violation.
+History: on the pinned tree renames were stored per *string index*, so an item or string constant sharing its
+original pool string with an item renamed through another handle took over that hook value (fixed in /repo, see
+known_findings.json "fixed: property=C17"; the two minimal histories are replayed first as regression cases). Mismatches
+of that shape still get their own '...:shared-string-hook' bucket so that a recurrence is reported as one root cause.
 """
 import traceback
 from hypothesis import strategies as st
